@@ -32,5 +32,3 @@ Definition agrees (c : case) : bool :=
 
 Definition mismatches (cs : list case) : list N := indices_where (fun c => negb (agrees c)) cs.
 Definition spec_violations (cs : list case) : list N := indices_where (fun c => negb (P (fst c) (snd c))) cs.
-(* cases of the finding "a conversion response followed by other data is accepted" *)
-Definition trigger_C12conv (cs : list case) : list N := indices_where (fun c => T_conv (fst c)) cs.
